@@ -33,7 +33,7 @@ EXPLANATION = ("C16: Sense(mps, coord, weights, coil_batch_size)(x) equals, per 
                "prox = prox of lamda*||.||_1 (through G or the unitary W), objective() = documented objective), the CG system equals minus the gradient of "
                "the documented objective for all x, and for consistent data the true image is a stationary point.")
 REDUCE = True
-CONFIG_BUDGET_S = {"quick": 900, "thorough": 3600}
+CONFIG_BUDGET_S = {"quick": 900, "thorough": 1800}
 
 COORDS = {
     "c2a": [[0.3, -0.7], [1.2, 0.4], [-0.9, 0.1]],
